@@ -121,7 +121,20 @@ def written_outcome(tmp, d, ac, eff):
     return "other"
 
 
+class NotApplicable(Exception):
+    pass
+
+
 def wrap(form, d, eff):
+    if form == "object":
+        import stix2
+        try:
+            o = stix2.parse(copy.deepcopy(d), allow_custom=True)
+        except Exception:  # noqa
+            raise NotApplicable()
+        if isinstance(o, dict) or json.loads(o.serialize()) != d:
+            raise NotApplicable()         # only content the library builds unchanged can stand for the same document
+        return o
     if form == "dict":
         return copy.deepcopy(d)
     if form == "json":
@@ -155,7 +168,7 @@ def plant(root, d):
 
 
 ENTRY_FORMS = {
-    "parse": ["dict", "json"],
+    "parse": ["dict", "json", "object"],      # "object": the content already built as a library object (under the version it detects by itself), handed to parse() with the version argument
     "parse_observable": ["dict", "json"],
     "MemoryStore()": ["dict", "list", "bundle_dict"],
     "MemorySource()": ["dict", "list", "bundle_dict"],
@@ -249,6 +262,8 @@ def observe(entry, form, cell, n, scratch):
     try:
         line["outcome"] = run_entry(entry, form, d, arg, ac, cell["eff"], scratch)
         line["exc"] = "none"
+    except NotApplicable:
+        return None
     except Exception as e:  # noqa
         line["outcome"] = "err"
         line["exc"] = type(e).__name__
@@ -373,6 +388,8 @@ def run(chk):
             for form in forms + more:
                 n += 1
                 ln = observe(entry, form, cell, n, chk.scratch)
+                if ln is None:
+                    continue
                 lines.append(ln)
                 chk.case([entry, form, cell["arg"], cell["shape"], cell["idc"], cell["ac"]])
     lines += type_sweep(chk)
